@@ -53,6 +53,13 @@ func (t *TransactionCancelTimer) Start() error {
 	return nil
 }
 
+// Started returns true if the timer was started.
+func (t *TransactionCancelTimer) Started() bool {
+	t.doneMutex.Lock()
+	defer t.doneMutex.Unlock()
+	return t.done != nil
+}
+
 func (t *TransactionCancelTimer) Stop() {
 	t.doneMutex.Lock()
 	defer t.doneMutex.Unlock()
